@@ -172,6 +172,23 @@ def run(ctx):
         doc = dict(phase="explode", partitions=n, gen_seed=case["seed"])
         ctx.case(doc, nontrivial=n > 1, sample=(rep == 0))
         ctx.count(f"explode-partitions:{n}")
+        # failure path first: with the input's index out of sight a partition task fails inside its writer block; what it
+        # touches while failing must still be private to its partition, and the later runs must not notice
+        idxp = vcfgen.index_path(src)
+        os.rename(idxp, idxp + ".hidden")
+        fail_js = r.sample(range(n), min(2, n))
+        fields = {}
+        for k, j in enumerate(fail_js):
+            flog = os.path.join(d, f"f{k}.log")
+            ferr = run_tasks([f"from bio2zarr import vcf2zarr\nvcf2zarr.explode_partition({icf!r}, {j})"], [flog], d)
+            fdoc = dict(doc, failing_task=j)
+            ctx.case(fdoc, nontrivial=True)
+            ctx.count("explode-failing-task")
+            if ferr is None:
+                ctx.note("explode partition succeeded without its index (fault not reached)")
+            muts, reads = read_log(flog, d)
+            check_task(ctx, fdoc, "explode", j, muts, reads, icf, lambda rel: parse_icf(rel, fields), None)
+        os.rename(idxp + ".hidden", idxp)
         order = list(range(n))
         r.shuffle(order)
         retry = r.sample(range(n), min(3, n)) + ([1] if n > 11 else [])
